@@ -120,6 +120,37 @@ Proof.
     intros I. apply N. eapply Permutation_in; [apply Permutation_sym, Permutation_map; exact P | exact I].
 Qed.
 
+(* ------------------------------------------------------------------ schema R *)
+Lemma mem_perm : forall k l1 l2, Permutation l1 l2 -> mem k l1 = mem k l2.
+Proof.
+  intros k l1 l2 P. destruct (mem k l1) eqn:E1; destruct (mem k l2) eqn:E2; try reflexivity.
+  - apply mem_In in E1. rewrite (In_mem k l2) in E2; [discriminate|]. eapply Permutation_in; eauto.
+  - apply mem_In in E2. rewrite (In_mem k l1) in E1; [discriminate|]. eapply Permutation_in; [apply Permutation_sym|]; eauto.
+Qed.
+
+Lemma memo_read : forall (V : Type) (g : str -> option V) (order : list str) (m0 : store V) k,
+  read (fold_left (fun m a => match g a with Some v => (a, v) :: m | None => m end) order m0) k =
+  match (if mem k order then g k else None) with Some v => Some v | None => read m0 k end.
+Proof.
+  intros V g. induction order as [|a r IH]; intros m0 k; [reflexivity|].
+  cbn [fold_left mem]. rewrite IH.
+  destruct (str_eqb k a) eqn:E; destruct (mem k r) eqn:M; cbn [orb].
+  - apply str_eqb_eq in E. subst a. destruct (g k) eqn:Gk; [reflexivity|reflexivity].
+  - apply str_eqb_eq in E. subst a. destruct (g k) eqn:Gk; cbn [read]; [now rewrite str_eqb_refl | reflexivity].
+  - destruct (g k); [reflexivity|]. destruct (g a); [cbn [read]; now rewrite E | reflexivity].
+  - destruct (g a); [cbn [read]; now rewrite E | reflexivity].
+Qed.
+
+Lemma memo_all_order_free : forall (V : Type) (f : store V -> str -> option V) (g : str -> option V) o1 o2 k,
+  (forall m a, f m a = g a) -> Permutation o1 o2 -> read (memo_all f o1) k = read (memo_all f o2) k.
+Proof.
+  intros V f g o1 o2 k H P. unfold memo_all.
+  assert (E : forall o, fold_left (fun m a => match f m a with Some v => (a, v) :: m | None => m end) o [] =
+                        fold_left (fun m a => match g a with Some v => (a, v) :: m | None => m end) o []).
+  { intros o. generalize (@nil (str * V)). induction o as [|a r IH]; intros m0; [reflexivity|]. cbn [fold_left]. rewrite H. apply IH. }
+  rewrite !E, !memo_read, (mem_perm k o1 o2 P). reflexivity.
+Qed.
+
 (* ------------------------------------------------------------------ the manifest site *)
 Lemma manifest_site_order_free : forall g o1 o2,
   NoDup (map fst o1) -> Permutation o1 o2 -> manifest_site g o1 = manifest_site g o2.
